@@ -92,8 +92,58 @@ func (x *Exec) recvVal(st *State, fr *frame, chv ssa.Value, et types.Type) Val {
 	return v
 }
 
+// signalChan: channels of struct{} are only ever closed, never sent on (verified by scanning every send in the analysed packages).
+func (e *Engine) signalChan(t types.Type) bool {
+	ch, ok := t.Underlying().(*types.Chan)
+	if !ok {
+		return false
+	}
+	st, ok := ch.Elem().Underlying().(*types.Struct)
+	if !ok || st.NumFields() != 0 {
+		return false
+	}
+	if e.signalChecked == 0 {
+		e.signalChecked = 1
+		for fn := range e.allFuncs {
+			if !e.analysed(fn) {
+				continue
+			}
+			for _, b := range fn.Blocks {
+				for _, in := range b.Instrs {
+					var ct types.Type
+					switch in := in.(type) {
+					case *ssa.Send:
+						ct = in.Chan.Type()
+					case *ssa.Select:
+						for _, s := range in.States {
+							if s.Dir == types.SendOnly {
+								if c2, ok := s.Chan.Type().Underlying().(*types.Chan); ok {
+									if s2, ok := c2.Elem().Underlying().(*types.Struct); ok && s2.NumFields() == 0 {
+										e.signalChecked = 2
+									}
+								}
+							}
+						}
+					}
+					if ct != nil {
+						if c2, ok := ct.Underlying().(*types.Chan); ok {
+							if s2, ok := c2.Elem().Underlying().(*types.Struct); ok && s2.NumFields() == 0 {
+								e.signalChecked = 2
+							}
+						}
+					}
+				}
+			}
+		}
+	}
+	return e.signalChecked == 1
+}
+
 func (x *Exec) doRecv(st *State, fr *frame, in *ssa.UnOp, ch Val) Val {
 	et := in.X.Type().Underlying().(*types.Chan).Elem()
+	if x.e.signalChan(in.X.Type()) {
+		st.assume(st.ghostRead(st.ghost("closedch"), st.term(ch)))
+	}
 	x.blockingOp(st, fr, in.Pos(), "recv "+chanName(in.X), []string{chanName(in.X)})
 	v := x.recvVal(st, fr, in.X, et)
 	if in.CommaOk {
@@ -175,13 +225,24 @@ func (x *Exec) doSelect(st *State, fr *frame, in *ssa.Select) []callOut {
 		if idx < total-1 {
 			s = st.clone()
 		}
-		if idx == n { // default
+		if idx == n { // default: taken only if no case is ready; a closed channel is always ready to receive
 			s.note("select default")
+			for _, sj := range in.States {
+				if sj.Dir == types.RecvOnly {
+					cv := x.val(s, fr, sj.Chan)
+					s.assume(not(s.ghostRead(s.ghost("closedch"), s.term(cv))))
+				}
+			}
 			outs = append(outs, callOut{st: s, val: Val{Tuple: mk(s, -1), Ty: tup}})
 			continue
 		}
 		sj := in.States[idx]
 		s.note("select case %d (%s)", idx, chanName(sj.Chan))
+		if sj.Dir == types.RecvOnly && x.e.signalChan(sj.Chan.Type()) {
+			// a channel of struct{} is never sent on in the analysed packages (checked): receiving means it is closed
+			cv := x.val(s, fr, sj.Chan)
+			s.assume(s.ghostRead(s.ghost("closedch"), s.term(cv)))
+		}
 		f2 := fr
 		if sj.Dir == types.SendOnly {
 			x.doSend(s, f2, sj.Chan, sj.Send, sj.Pos, false)
